@@ -31,14 +31,16 @@ func GetTargetChangeHash(target model.Target, dependencyHashes []string) (string
 func hashTargetDefinition(target model.Target, dependencyHashes []string) (string, error) {
 	hasher := GetHasher()
 
-	_, err := hasher.WriteString(target.Label.String())
-	_, err = hasher.WriteString(target.Command)
-	_, err = hasher.WriteString(sorted(target.Inputs))
-	_, err = hasher.WriteString(sorted(target.OutputDefinitions()))
-	_, err = hasher.WriteString(sorted(dependencyHashes))
-	_, err = hasher.WriteString(sortedKeyValue(target.Fingerprint))
+	// Every component is length-framed so that bytes cannot move between
+	// adjacent components (or list elements) without changing the hash.
+	_, err := hasher.WriteString(framed(target.Label.String()))
+	_, err = hasher.WriteString(framed(target.Command))
+	_, err = hasher.WriteString(framed(sorted(target.Inputs)))
+	_, err = hasher.WriteString(framed(sorted(target.OutputDefinitions())))
+	_, err = hasher.WriteString(framed(sorted(dependencyHashes)))
+	_, err = hasher.WriteString(framed(sortedKeyValue(target.Fingerprint)))
 	if !target.IsMultiplatformCache() {
-		_, err = hasher.WriteString(config.Global.GetPlatform())
+		_, err = hasher.WriteString(framed(config.Global.GetPlatform()))
 	}
 
 	if err != nil {
@@ -48,9 +50,18 @@ func hashTargetDefinition(target model.Target, dependencyHashes []string) (strin
 	return hasher.SumString(), nil
 }
 
+// framed prefixes s with its length so that concatenations of framed strings are unambiguous.
+func framed(s string) string {
+	return fmt.Sprintf("%d:%s", len(s), s)
+}
+
 func sorted(s []string) string {
 	slices.Sort(s)
-	return strings.Join(s, ",")
+	framedElements := make([]string, len(s))
+	for i, element := range s {
+		framedElements[i] = framed(element)
+	}
+	return strings.Join(framedElements, ",")
 }
 
 func sortedKeyValue(m map[string]string) string {
@@ -60,7 +71,7 @@ func sortedKeyValue(m map[string]string) string {
 
 	entries := make([]string, 0, len(m))
 	for k, v := range m {
-		entries = append(entries, fmt.Sprintf("%s=%s", k, v))
+		entries = append(entries, fmt.Sprintf("%s=%s", framed(k), framed(v)))
 	}
 
 	return sorted(entries)
